@@ -45,9 +45,12 @@ def seal_raw(raw):
 
 def bases(ctx):
     blk = core.blocks(ctx.seed)
-    specs = [("abc", Cfg(0, b"", 0, 3, 1)), ("abc", Cfg(2, b"", 0, 3, 1)), ("ab", Cfg(2, D, 0, 1, 0)), ("aab", Cfg(2, b"", 1, 1, 1))]
+    specs = [("abc", Cfg(0, b"", 0, 3, 1)), ("abc", Cfg(2, b"", 0, 3, 1)), ("ab", Cfg(2, D, 0, 1, 0)), ("aab", Cfg(2, b"", 1, 1, 1)),
+             # an overall digest of 16 bytes: the lead is shorter than the reader's first 25-byte read, so the header buffer is
+             # filled from two reads and every length derived from "bytes read so far" differs from the lead's own size
+             ("a", Cfg(0, b"", 0, 3, 3))]
     if ctx.tier == "thorough":
-        specs += [("abcd", Cfg(0, D, 1, 2, 1)), ("a", Cfg(0, b"", 0, 0, 1)), ("", Cfg(2, b"", 0, 3, 1))]
+        specs += [("abcd", Cfg(0, D, 1, 2, 1)), ("a", Cfg(0, b"", 0, 0, 1)), ("", Cfg(2, b"", 0, 3, 1)), ("ab", Cfg(2, D, 1, 0, 2))]
     out = []
     for w, cfg in specs:
         pieces = universe.word_pieces(w, ctx.seed)
